@@ -126,6 +126,13 @@ Proof.
   - destruct (beq (f q) q); [reflexivity|]. apply IH.
 Qed.
 
+Lemma loop_ext fuel f g z : (forall q, f q = g q) -> loop fuel f z = loop fuel g z.
+Proof.
+  intros H. revert z. induction fuel as [|k IH]; intros z; cbn [loop];
+    rewrite H; [reflexivity|].
+  destruct (beq (g z) z); [reflexivity|apply IH].
+Qed.
+
 (* increasing chains: least fixpoint above the start *)
 Lemma loop_inc f q fuel :
   mono f -> le q (f q) -> NV - count q <= fuel ->
